@@ -117,6 +117,11 @@ func (r *rapidContext) HandleInit(init *interop.Init, initSuccessResponseChan ch
 func (r *rapidContext) HandleInvoke(invoke *interop.Invoke, sbInfoFromInit interop.SandboxInfoFromInit, requestBuffer *bytes.Buffer, responseSender interop.InvokeResponseSender) (interop.InvokeSuccess, *interop.InvokeFailure) {
 	r.handlerExecutionMutex.Lock()
 	defer r.handlerExecutionMutex.Unlock()
+	if invoke.DispatchCtx != nil && invoke.DispatchCtx.Err() != nil {
+		// The reservation was reset while this request was waiting for the handler mutex.
+		// Running it now (possibly with a suppressed init) would start processes for nobody.
+		return interop.InvokeSuccess{}, &interop.InvokeFailure{ResetReceived: true}
+	}
 	// Clear the context used by the last invoke
 	r.appCtx.Delete(appctx.AppCtxInvokeErrorTraceDataKey)
 	return handleInvoke(r, invoke, sbInfoFromInit, requestBuffer, responseSender)
